@@ -19,16 +19,17 @@ BVerdict(c, r) ==
    LET m == Len(c.g)
        tag == r.backend
        hasCanon == Len(r.cg) = m
+       hasSig == Len(r.sig) = m          \* rows of a value-object wrapper without a signature of its own carry sig = <<>>
    IN FirstFail(<<
       <<tag \o ":canonical-nodes-are-not-1..N",
           hasCanon => \A k \in 1..m : IsPerm(r.pi[k], c.g[k].n)>>,
       <<tag \o ":canonical-graph-is-not-the-input-relabelled",
           hasCanon => \A k \in 1..m : IsPerm(r.pi[k], c.g[k].n) => SameGraph(r.cg[k], Relabel(c.g[k], r.pi[k]))>>,
-      <<tag \o ":signature-not-deterministic", \A k \in 1..m : r.sig[k] = r.sig2[k]>>,
+      <<tag \o ":signature-not-deterministic", hasSig => \A k \in 1..m : r.sig[k] = r.sig2[k]>>,
       <<tag \o ":equal-signatures-for-non-isomorphic-graphs",
-          \A a, b \in 1..m : (a < b /\ r.sig[a] = r.sig[b]) => IsIso(c.g[a], c.g[b])>>,
+          hasSig => \A a, b \in 1..m : (a < b /\ r.sig[a] = r.sig[b]) => IsIso(c.g[a], c.g[b])>>,
       <<tag \o ":isomorphic-graphs-get-different-signatures",
-          r.exact => \A a, b \in 1..m : (a < b /\ IsIso(c.g[a], c.g[b])) => r.sig[a] = r.sig[b]>>,
+          (r.exact /\ hasSig) => \A a, b \in 1..m : (a < b /\ IsIso(c.g[a], c.g[b])) => r.sig[a] = r.sig[b]>>,
       <<tag \o ":isomorphic-graphs-get-different-canonical-graphs",
           (r.exact /\ hasCanon) => \A a, b \in 1..m : (a < b /\ IsIso(c.g[a], c.g[b])) => SameGraph(r.cg[a], r.cg[b])>>,
       <<tag \o ":wrapper-equality-is-not-isomorphism",
